@@ -84,6 +84,14 @@ fn build_world(specs: &[ZoneSpec]) -> Result<World, String> {
             }
         }
     }
+    // zones with an owner three labels down are also asked one label below the branch
+    if specs.iter().any(vzone::is_deep) {
+        for q in vzone::DEEP_QUERIES {
+            if !qnames.iter().any(|x| x == q) {
+                qnames.push(q.to_string());
+            }
+        }
+    }
     let text = specs.iter().map(|s| s.to_string()).collect::<Vec<_>>().join(" + ");
     Ok(World { specs: specs.to_vec(), zones, refs, nsecs, qnames, text })
 }
@@ -221,6 +229,7 @@ fn has_interior_star(n: &Name) -> bool {
 ///  ent        = a record covers the name (or the wildcard child of one of its ancestors) while its
 ///               next name lies BELOW that name, i.e. the name exists as an empty non-terminal;
 ///  foreign    = records / SOA of another zone of the world (parent and child) are combined;
+///  closer-wildcard-exists[+star] = wildcard expansion although a closer wildcard than the claimed source exists;
 ///  ce-ignored = wildcard expansion although the covering record itself shows a closer encloser
 ///               than the wildcard's parent;
 ///  nosoa      = no SOA in the response (the validator guesses the closest encloser / cannot
@@ -255,6 +264,17 @@ fn mechanism(world: &World, recs: &[&NsecRec], qname: &Name, qtype: u16, claim: 
     }
     if let Claim::Wildcard { source, .. } = claim {
         let base = source.parent();
+        // a CLOSER WILDCARD than the claimed source exists in the zone (`*.<a>` for an ancestor a of the
+        // query name strictly below the source's parent): no_closer_matches must find it uncovered
+        if let Some(zone) = dn::authoritative_zone(&world.refs, qname, qtype) {
+            let mut a = qname.parent();
+            while a.strictly_below(&base) {
+                if zone.exists(&a.wildcard_child()) {
+                    return if qname.0.iter().any(|l| l.as_slice() == b"*") { "closer-wildcard-exists+star" } else { "closer-wildcard-exists" };
+                }
+                a = a.parent();
+            }
+        }
         if recs.iter().any(|r| r.covers(qname) && r.closest_encloser(qname).strictly_below(&base)) {
             return "ce-ignored";
         }
@@ -271,6 +291,21 @@ fn mechanism(world: &World, recs: &[&NsecRec], qname: &Name, qtype: u16, claim: 
 // ------------------------------------------------------------------------------------------
 // end-to-end replay of one decision-level case
 
+/// What the validator gets is what came off the wire: every scripted upstream response is encoded
+/// and decoded again (so the NSEC / type-bitmap / RRSIG codecs are on the path of every end-to-end verdict).
+static WIRE_FAILURES: AtomicU64 = AtomicU64::new(0);
+
+fn through_the_wire(m: Message) -> Message {
+    match m.to_vec().ok().and_then(|b| Message::from_vec(&b).ok()) {
+        Some(back) => back,
+        None => {
+            // reported at the end of the run (a scripted response could not be encoded and decoded again)
+            WIRE_FAILURES.fetch_add(1, Ordering::Relaxed);
+            m
+        }
+    }
+}
+
 fn dnskey_response(z: &ZoneIn, q: &Query) -> Message {
     let mut m = Message::new(0, MessageType::Response, OpCode::Query);
     m.add_query(q.clone());
@@ -279,7 +314,12 @@ fn dnskey_response(z: &ZoneIn, q: &Query) -> Message {
     m
 }
 
-fn e2e_case(
+fn e2e_case(world: &World, rt: &tokio::runtime::Runtime, query: &Query, soa: &Option<HName>, zi: usize, claim: &Claim, mask: u32) -> E2e {
+    e2e_case_rcode(world, rt, query, soa, zi, claim, mask, None)
+}
+
+#[allow(clippy::too_many_arguments)]
+fn e2e_case_rcode(
     world: &World,
     rt: &tokio::runtime::Runtime,
     query: &Query,
@@ -287,10 +327,11 @@ fn e2e_case(
     zi: usize,
     claim: &Claim,
     mask: u32,
+    rcode: Option<ResponseCode>,
 ) -> E2e {
     let mut m = Message::new(0, MessageType::Response, OpCode::Query);
     m.add_query(query.clone());
-    m.metadata.response_code = rcode_of(claim);
+    m.metadata.response_code = rcode.unwrap_or(rcode_of(claim));
     m.metadata.authoritative = true;
     m.add_answers(world.expanded_answer(zi, claim, &query.name, false));
     if let Some(s) = soa {
@@ -315,7 +356,7 @@ fn e2e_case(
             return keys.iter().find(|(o, _)| *o == q.name).map(|(_, m)| m.clone());
         }
         if q.name == main.name && q.query_type == main.query_type {
-            return Some(m.clone());
+            return Some(through_the_wire(m.clone()));
         }
         None
     });
@@ -336,6 +377,7 @@ fn e2e_agrees(hook: Proof, e: &E2e) -> bool {
 
 struct Counters {
     bound: AtomicU64,
+    thorough: bool,
 }
 
 fn case_json(world: &World, qname: &str, qtype: u16, claim: &Claim, soa: &Option<HName>, mask: u32) -> Value {
@@ -466,7 +508,11 @@ fn run_claim(
                     }
                 }
             }
-            if bad_key.is_some() || slice || only.is_some() {
+            // quick: 1/4 of the slice and 1/8 of the Secure-but-false cases (deterministic by digest);
+            // thorough: every Secure-but-false case and the whole 1/64 slice
+            let digest = fnv_str(&format!("{case_id}|{soa:?}|{mask}|bind"));
+            let replay = only.is_some() || if cnt.thorough { bad_key.is_some() || slice } else { (bad_key.is_some() && digest % 8 == 0) || (slice && digest % 4 == 0) };
+            if replay {
                 let e = e2e_case(world, rt, &query, &soa, zi, claim, mask);
                 cnt.bound.fetch_add(1, Ordering::Relaxed);
                 if !e2e_agrees(verdict, &e) {
@@ -490,6 +536,17 @@ fn run_claim(
 // the chain the real signer produced vs RFC 4035 2.3
 
 fn check_chain(world: &World, l: &mut Local) {
+    // every genuine NSEC: hickory's RDATA octets = the reference encoder's octets
+    {
+        use hickory_proto::serialize::binary::BinEncodable;
+        for (_, owner, nsec, abs) in &world.nsecs {
+            let want = dn::nsec_rdata_wire(&abs.next.0, &abs.types);
+            match nsec.to_bytes() {
+                Ok(got) if got == want => l.outcome("codec:genuine-nsec-emit:as-reference"),
+                other => l.violation("codec:genuine-nsec-emit-differs", &format!("{owner} NSEC: emitted {other:02x?}, reference {want:02x?}"), || json!({"level": "chain", "zones": world.specs.iter().map(|s| s.to_json()).collect::<Vec<_>>(), "zone": 0})),
+            }
+        }
+    }
     for (zi, z) in world.zones.iter().enumerate() {
         let want = dn::nsec_chain(&z.rz);
         let mut got: Vec<&NsecRec> = world.nsecs.iter().filter(|n| n.0 == zi).map(|n| &n.3).collect();
@@ -536,6 +593,10 @@ fn ref_class(res_step: &Step, qname: &Name) -> Option<String> {
         Step::NoData(NoDataKind::WildcardEnt { .. }) => Some("NODATA-wildent".into()),
         Step::Data { source, .. } if source != qname => Some("WILDCARD".into()),
         Step::Cname { source, .. } if source != qname => Some("WILDCARD-CNAME".into()),
+        // ordinary positive answers: "for every signed zone and every QUERY ... accepted" - whatever the
+        // server attaches to them must not make the validator reject them
+        Step::Data { .. } => Some("POSITIVE".into()),
+        Step::Cname { .. } => Some("POSITIVE-CNAME".into()),
         _ => None,
     }
 }
@@ -635,7 +696,7 @@ fn completeness(world: &World, zi: usize, rt: &tokio::runtime::Runtime, l: &mut 
         if q.query_type == RecordType::DNSKEY && q.name == origin {
             return Some(dnskey.clone());
         }
-        t2.get(&(q.name.clone(), q.query_type)).cloned()
+        t2.get(&(q.name.clone(), q.query_type)).cloned().map(through_the_wire)
     });
     let handle = vzone::validator(up, world.anchors(), None);
     // The answers that do NOT have the shape the reference expects (C10's deviations): what does
@@ -668,6 +729,18 @@ fn completeness(world: &World, zi: usize, rt: &tokio::runtime::Runtime, l: &mut 
     for (qn, t, class) in todo {
         l.eval();
         let e = vzone::validate_with(rt, &handle, Query::new(vzone::hname(&qn), RecordType::from(t)));
+        // second step: the same query again on the same handle (its validation cache now holds the
+        // verdicts of the first pass, of the other queries and of the rejected ones): same verdict
+        let again = vzone::validate_with(rt, &handle, Query::new(vzone::hname(&qn), RecordType::from(t)));
+        if again.class() != e.class() {
+            l.violation(
+                &format!("second-validation-differs:{}->{}", e.class(), again.class()),
+                &format!("{qn} {}: validating the same server answer a second time on the same DnssecDnsHandle gives another verdict", rz::type_name(t)),
+                || json!({"level": "completeness", "zones": world.specs.iter().map(|s| s.to_json()).collect::<Vec<_>>(), "world": world.text, "zone": zi, "qname": qn, "qtype": t}),
+            );
+        } else {
+            l.outcome("second-validation:same-verdict");
+        }
         if e.is_secure() {
             l.outcome(&format!("complete:{class}"));
             l.nontrivial(fnv_str(&format!("complete|{}|{qn}|{t}", world.text)));
@@ -677,6 +750,17 @@ fn completeness(world: &World, zi: usize, rt: &tokio::runtime::Runtime, l: &mut 
         // validator rejects a valid proof) or not (then the server's proof is insufficient)?
         let m = &table[&(vzone::hname(&qn), RecordType::from(t))];
         let name = Name::parse(&qn);
+        if class.starts_with("POSITIVE") {
+            let denial = m.authorities.iter().any(|r| r.record_type() == RecordType::NSEC);
+            let chained = m.answers.iter().any(|r| r.record_type() != RecordType::RRSIG && r.name != vzone::hname(&qn));
+            let key = format!("incomplete:{class}:{}:{}{}", e.class(), if denial { "nsec-attached-to-positive-answer" } else { "no-denial-records" }, if chained { ":chained-answer" } else { "" });
+            l.violation(&key, &format!("the server's own DO=1 POSITIVE answer for {qn} {} is not accepted as Secure by the validator: {}", rz::type_name(t), e.class()), || {
+                json!({"level": "completeness", "zones": world.specs.iter().map(|s| s.to_json()).collect::<Vec<_>>(), "world": world.text, "zone": zi, "qname": qn, "qtype": t, "qtype_name": rz::type_name(t),
+                       "answer": m.answers.iter().filter(|r| r.record_type() != RecordType::RRSIG).map(|r| format!("{} {} {}", r.name, r.record_type(), r.data)).collect::<Vec<_>>(),
+                       "authority": m.authorities.iter().filter(|r| r.record_type() != RecordType::RRSIG).map(|r| format!("{} {} {}", r.name, r.record_type(), r.data)).collect::<Vec<_>>()})
+            });
+            continue;
+        }
         let attached: Vec<NsecRec> = m
             .authorities
             .iter()
@@ -765,12 +849,135 @@ fn pair_worlds() -> Vec<Vec<ZoneSpec>> {
     out
 }
 
+/// Response codes other than NOERROR / NXDOMAIN, NXDOMAIN next to a wildcard-expanded answer, and
+/// answer RRSIGs that are not themselves Secure: never Secure, whatever NSEC set comes along.
+fn rcode_and_proof_variants(world: &World, rt: &tokio::runtime::Runtime, l: &mut Local, cnt: &Counters) {
+    let n = world.nsecs.len();
+    let rcodes = [ResponseCode::ServFail, ResponseCode::Refused, ResponseCode::FormErr, ResponseCode::NotImp, ResponseCode::YXDomain, ResponseCode::NotAuth, ResponseCode::BADVERS];
+    for qn in &world.qnames {
+        let qname = Name::parse(qn);
+        let hq = vzone::hname(qn);
+        for t in [rz::T_A, rz::T_DS] {
+            let query = Query::new(hq.clone(), RecordType::from(t));
+            for (zi, claim) in world.claims(&qname, t) {
+                let secure_answers = world.expanded_answer(zi, &claim, &hq, true);
+                let mut variants: Vec<(String, ResponseCode, Vec<Record>)> = rcodes.iter().map(|r| (format!("rcode-{r:?}").to_uppercase(), *r, secure_answers.clone())).collect();
+                if matches!(claim, Claim::Wildcard { .. }) {
+                    variants.push(("NXDOMAIN-WITH-ANSWER".into(), ResponseCode::NXDomain, secure_answers.clone()));
+                    for p in [Proof::Bogus, Proof::Insecure, Proof::Indeterminate] {
+                        let mut a = secure_answers.clone();
+                        for r in a.iter_mut() {
+                            r.proof = p;
+                        }
+                        variants.push((format!("answer-rrsig-{p:?}").to_lowercase(), ResponseCode::NoError, a));
+                    }
+                }
+                for (tag, rcode, answers) in &variants {
+                    for soa in world.soa_variants() {
+                        for mask in 1u32..(1 << n) {
+                            let sub: Vec<(&HName, &NSEC)> = (0..n).filter(|i| mask >> i & 1 == 1).map(|i| (&world.nsecs[i].1, &world.nsecs[i].2)).collect();
+                            l.eval();
+                            let v = match vcore::catch(|| verify_nsec(&query, soa.as_ref(), *rcode, answers, &sub)) {
+                                Ok(v) => v,
+                                Err(p) => {
+                                    l.violation(&format!("panic:{}", vcore::short_loc(&p.loc)), &p.msg, || case_json(world, qn, t, &claim, &soa, mask));
+                                    continue;
+                                }
+                            };
+                            l.outcome(&format!("variant:{}:{}", if tag.starts_with("RCODE") { "other-rcode" } else { tag.as_str() }, format!("{v:?}").to_lowercase()));
+                            if v == Proof::Secure {
+                                l.violation(&format!("unsound:{tag}:{}", claim.tag()), &format!("{tag}: a response for {qn} {} with this rcode / answer status is Secure on NSEC records", rz::type_name(t)), || {
+                                    let mut j = case_json(world, qn, t, &claim, &soa, mask);
+                                    j["level"] = json!("variant");
+                                    j["variant"] = json!(tag);
+                                    j
+                                });
+                            }
+                        }
+                    }
+                }
+                // one end-to-end replay per (query, claim): rcode SERVFAIL with the full record set must not come back Secure
+                if fnv_str(&format!("{}|{qn}|{t}|{claim:?}|variant", world.text)) % 16 == 0 {
+                    let e = e2e_case_rcode(world, rt, &query, &Some(world.zones[0].origin.clone()), zi, &claim, (1u32 << n) - 1, Some(ResponseCode::ServFail));
+                    cnt.bound.fetch_add(1, Ordering::Relaxed);
+                    l.outcome(&format!("variant:e2e-servfail:{}", if e.is_secure() { "secure" } else { "not-secure" }));
+                    if e.is_secure() {
+                        l.violation(&format!("unsound-e2e:RCODE-SERVFAIL:{}", claim.tag()), "a SERVFAIL response with NSEC records is accepted as Secure end to end", || case_json(world, qn, t, &claim, &None, (1u32 << n) - 1));
+                    }
+                }
+            }
+        }
+    }
+}
+
+/// Codec family (producer independence): NSEC RDATA octets produced by the reference encoder
+/// (`vref::denial::nsec_rdata_wire`, RFC 4034 4.1) versus hickory's — hickory must EMIT exactly
+/// the reference octets and must DECODE the reference octets (inside a reference-built message)
+/// to the same next name (case preserved) and the same type set. Type sets reach into windows
+/// 0, 1, 4, 128 and 255 and onto the first/last bit of a window; plus every genuine NSEC of the world.
+fn codec_family(l: &mut Local) {
+    use hickory_proto::serialize::binary::BinEncodable;
+    let alphabet: [u16; 16] = [1, 2, 5, 6, 15, 16, 28, 43, 46, 47, 48, 255, 256, 1234, 32768, 65535];
+    let mut sets: Vec<BTreeSet<u16>> = vec![BTreeSet::new()];
+    for a in alphabet {
+        sets.push([a].into_iter().collect());
+        for b in alphabet {
+            if a < b {
+                sets.push([a, b].into_iter().collect());
+            }
+        }
+    }
+    for m in 0u32..256 {
+        sets.push((0..8).filter(|i| m >> i & 1 == 1).map(|i| alphabet[i * 2]).collect());
+    }
+    let nexts = ["z.", "a.z.", "*.a.z.", "A.b.Z.", "."];
+    for next in nexts {
+        for types in &sets {
+            l.eval();
+            let labels: Vec<Vec<u8>> = next.trim_end_matches('.').split('.').filter(|x| !x.is_empty()).map(|x| x.as_bytes().to_vec()).collect();
+            let want = dn::nsec_rdata_wire(&labels, types);
+            let hnext = if next == "." { HName::root() } else { vzone::hname(next) };
+            let nsec = NSEC::new(hnext.clone(), types.iter().map(|t| RecordType::from(*t)));
+            let case = || json!({"level": "codec", "next": next, "types": types.iter().collect::<Vec<_>>()});
+            match nsec.to_bytes() {
+                Ok(got) if got == want => l.outcome("codec:nsec-emit:as-reference"),
+                Ok(got) => l.violation("codec:nsec-emit-differs", &format!("NSEC RDATA emitted as {got:02x?}, RFC 4034 4.1 gives {want:02x?}"), case),
+                Err(e) => l.violation("codec:nsec-emit-fails", &e.to_string(), case),
+            }
+            let msg = dn::message_with_authority_record(&[b"q".to_vec(), b"z".to_vec()], 1, &[b"o".to_vec(), b"z".to_vec()], rz::T_NSEC, 300, &want);
+            match Message::from_vec(&msg) {
+                Err(e) => l.violation("codec:nsec-decode-fails", &e.to_string(), case),
+                Ok(m) => {
+                    let ok = m.authorities.len() == 1
+                        && match &m.authorities[0].data {
+                            hickory_proto::rr::RData::DNSSEC(hickory_proto::dnssec::rdata::DNSSECRData::NSEC(d)) => {
+                                let got: BTreeSet<u16> = d.type_set().iter().map(u16::from).collect();
+                                got == *types && d.next_domain_name().eq_case(&hnext) && types.iter().all(|t| d.type_set().contains(RecordType::from(*t)))
+                            }
+                            _ => false,
+                        };
+                    if ok {
+                        l.outcome("codec:nsec-decode:as-reference");
+                    } else {
+                        l.violation("codec:nsec-decode-differs", &format!("reference NSEC RDATA {want:02x?} decodes to {:?}", m.authorities.first().map(|r| r.data.to_string())), case);
+                    }
+                }
+            }
+        }
+    }
+}
+
 fn run_world(world: &World, rt: &tokio::runtime::Runtime, l: &mut Local, cnt: &Counters, sample: bool) {
     if world.nsecs.len() > 7 {
         l.outcome("skipped:more-than-7-nsecs");
         return;
     }
     check_chain(world, l);
+    for z in &world.refs {
+        for sh in z.deep_shapes() {
+            l.outcome(sh);
+        }
+    }
     for qn in &world.qnames {
         for t in QTYPES {
             for (zi, claim) in world.claims(&Name::parse(qn), t) {
@@ -780,6 +987,11 @@ fn run_world(world: &World, rt: &tokio::runtime::Runtime, l: &mut Local, cnt: &C
     }
     for zi in 0..world.zones.len() {
         completeness(world, zi, rt, l, None);
+    }
+    // other rcodes / NXDOMAIN with answer / non-Secure answer RRSIGs: worlds with <= 1 owner per zone
+    // and the parent/child worlds (quick), every world (thorough)
+    if cnt.thorough || world.specs.iter().all(|s| s.owners.len() <= 1) {
+        rcode_and_proof_variants(world, rt, l, cnt);
     }
     if sample {
         l.sample(json!({"world": world.text, "nsecs": world.nsecs.iter().map(|n| format!("{} -> {}", n.3.owner, n.3.next)).collect::<Vec<_>>(), "qnames": world.qnames.len()}));
@@ -800,7 +1012,7 @@ fn main() {
         }
         vcore::machinery_exit("vref::zone / vref::denial self-test against the RFC examples failed");
     }
-    let cnt = Counters { bound: AtomicU64::new(0) };
+    let cnt = Counters { bound: AtomicU64::new(0), thorough };
 
     if let Some((_key, case)) = ctx.replay_case() {
         let specs: Vec<ZoneSpec> = case["zones"].as_array().map(|a| a.iter().filter_map(ZoneSpec::from_json).collect()).unwrap_or_default();
@@ -828,11 +1040,13 @@ fn main() {
 
     ctx.set_rule(
         "every NSEC-signed zone of the universe (apex + <=K owners of U(d), labels {a,b,*}; kinds A, TXT, A+TXT, CNAME->{a.z.,a.a.z.}, NS, NS+glue, NS+DS; \
-         quick d=2,K<=2; thorough adds d=2,K=3 and d=3,K<=2 over 6 kinds) and 114 parent/child worlds (z. + child a.z.), chains produced by the real signer; \
+         quick d=2,K<=2; thorough adds d=2,K=3 and d=3,K<=2 over 6 kinds; both tiers: the deep slice over {a.z,a.a.z,a.a.a.z,b.a.a.z,*.a.z,*.a.a.z} with an owner 3 labels down - \
+         quick K<=2 over {A,NS,NS+DS} and K=3 of kind A, thorough K=3 over {A,NS,NS+DS}; deep zones are also asked 4 names one label below the branch) and 114 parent/child worlds (z. + child a.z.), chains produced by the real signer; \
          x every qname of {apex, U(3), x.o., names below cuts} x qtype {A,TXT,DS,NS,CNAME} x claim {NXDOMAIN, NODATA, expansion of each published wildcard RRset} \
          x soa_name {each apex, absent} x EVERY non-empty subset of the world's NSEC records -> verify_nsec; oracle: Secure => claim true in the zone \
-         (vref::denial::truth) and proven by the subset (nsec_proves). Completeness: every negative/wildcard DO=1 answer of the real server through the real \
-         DnssecDnsHandle. Non-trivial = distinct (world, qname, qtype) for which some enumerated (claim, soa, subset) has a false claim or a valid proof of >= 2 records, plus each completeness case.",
+         (vref::denial::truth) and proven by the subset (nsec_proves). Also (worlds with <=1 owner per zone in quick): rcodes SERVFAIL/REFUSED/FORMERR/NOTIMP/YXDOMAIN/NOTAUTH/BADVERS, NXDOMAIN next to a wildcard answer and \
+         answer RRSIGs marked Bogus/Insecure/Indeterminate (never Secure); a codec family (NSEC RDATA octets of the reference encoder vs hickory, emit and decode, type windows 0/1/4/128/255). \
+         Completeness: EVERY DO=1 answer of the real server (negative, wildcard, ordinary positive, CNAME chains) through the real DnssecDnsHandle (responses go through the wire codec), each validated twice on the same handle. Non-trivial = distinct (world, qname, qtype) for which some enumerated (claim, soa, subset) has a false claim or a valid proof of >= 2 records, plus each completeness case.",
     );
     ctx.assume("vref::zone + vref::denial (self-tested on every run against RFC 4592 2.2.1/3.3.1, RFC 4034 6.1, RFC 4035 app. A/B, RFC 5155 app. A/B)");
     ctx.assume("the attacker only has genuine signed records of the zone(s) (forged signatures are C06's business); Ed25519 via ring");
@@ -850,6 +1064,14 @@ fn main() {
                 .map(|s| vec![s]),
         );
     }
+    // the deep slice (both tiers): one branch three labels deep - empty non-terminals whose first descendant is two
+    // or more labels below them, an empty non-terminal above another, wildcards below empty non-terminals.
+    // quick: <= 2 owners over {A, NS, NS+DS} and 3 owners of kind A; thorough (which has the <= 2 owner zones in
+    // the d=3 family above): 3 owners over {A, NS, NS+DS}
+    let deep_kinds = [Kind::A, Kind::Ns, Kind::NsDs];
+    let deep = if thorough { vzone::deep_family(&[], Some(&deep_kinds)) } else { vzone::deep_family(&deep_kinds, Some(&[Kind::A])) };
+    ctx.set("worlds_deep_slice", json!(deep.len()));
+    worlds.extend(deep.into_iter().map(|s| vec![s]));
     let single = worlds.len();
     worlds.extend(pair_worlds());
     ctx.set("worlds_single_zone", json!(single));
@@ -869,6 +1091,12 @@ fn main() {
         },
     );
 
+    ctx.with_local(codec_family);
+    if WIRE_FAILURES.load(Ordering::Relaxed) > 0 {
+        ctx.with_local(|l| {
+            l.violation("codec:response-does-not-survive-the-wire", &format!("{} scripted responses built from genuine records could not be encoded and decoded again by hickory's own codec", WIRE_FAILURES.load(Ordering::Relaxed)), || json!({"level": "codec"}))
+        });
+    }
     ctx.set("traces_validated_against_impl", json!(cnt.bound.load(Ordering::Relaxed)));
     if ctx.outcome_count("reference-inconsistent") > 0 {
         ctx.machinery_failure("vref::denial is inconsistent: nsec_proves accepted a claim that truth() calls false (see stderr)");
@@ -884,6 +1112,18 @@ fn main() {
     need.insert("complete:NODATA-other", "no server NODATA proof was accepted end to end");
     need.insert("bound:secure", "no Secure decision was replayed end to end");
     need.insert("chain:as-rfc4035", "no chain matched the reference chain");
+    need.insert("variant:other-rcode:bogus", "no response code other than NOERROR/NXDOMAIN was exercised");
+    need.insert("variant:NXDOMAIN-WITH-ANSWER:bogus", "NXDOMAIN next to a wildcard answer was never exercised");
+    need.insert("variant:answer-rrsig-bogus:bogus", "a non-Secure answer RRSIG was never exercised");
+    need.insert("variant:e2e-servfail:not-secure", "no SERVFAIL response was replayed end to end");
+    need.insert("codec:nsec-emit:as-reference", "the NSEC codec family did not run");
+    need.insert("codec:nsec-decode:as-reference", "the NSEC codec family did not run");
+    need.insert("codec:genuine-nsec-emit:as-reference", "no genuine NSEC was compared with the reference octets");
+    need.insert("second-validation:same-verdict", "no server answer was validated a second time");
+    need.insert("complete:POSITIVE", "no positive server answer was validated end to end");
+    need.insert("shape:ent-first-descendant-2-below", "no zone had an empty non-terminal whose first descendant is two or more labels below it");
+    need.insert("shape:ent-above-ent", "no zone had an empty non-terminal directly above another one");
+    need.insert("shape:wildcard-below-ent-chain", "no zone had a wildcard below a chain of two empty non-terminals");
     for (class, why) in need {
         if ctx.outcome_count(class) == 0 {
             ctx.machinery_failure(&format!("vacuous run: {why} ({class})"));
